@@ -9,6 +9,7 @@ import (
 	"github.com/kardiachain/go-kardia/consensus"
 	cstypes "github.com/kardiachain/go-kardia/consensus/types"
 	"github.com/kardiachain/go-kardia/lib/p2p"
+	"github.com/kardiachain/go-kardia/mainchain/blockchain"
 	kproto "github.com/kardiachain/go-kardia/proto/kardiachain/types"
 	"github.com/kardiachain/go-kardia/types"
 
@@ -74,7 +75,7 @@ func msgKind(m consensus.Message) string {
 // buildVictim runs a 4-validator network (equal powers, all correct) up to the scenario's height and then drives that
 // height with a delivery filter towards node V until the scenario's predicate holds on V.
 func buildVictim(sc scenario) (*victim, error) {
-	s, err := netsim.NewSim([]int64{15, 15, 15, 15}, nil, nil)
+	s, err := netsim.NewSim([]int64{15, 15, 15, 15}, nil, func(int) netsim.NodeOpts { return netsim.NodeOpts{Cache: leanCache()} })
 	if err != nil {
 		return nil, err
 	}
@@ -156,6 +157,13 @@ func buildVictim(sc scenario) (*victim, error) {
 	v.fp = v.fingerprint()
 	v.state = fmt.Sprintf("%s:%s", sc.kind, stateClass(nd))
 	return v, nil
+}
+
+// leanCache: no fastcache-backed caches (trie clean cache, snapshot tree). They are mmap'ed outside the Go heap and are
+// not returned when a simulated node is closed; a shard rebuilds hundreds of networks. Caching does not change what a
+// node computes.
+func leanCache() *blockchain.CacheConfig {
+	return &blockchain.CacheConfig{TrieCleanLimit: 0, TrieDirtyLimit: 256, TrieTimeLimit: 5 * time.Minute, SnapshotLimit: 0}
 }
 
 func stateClass(nd *netsim.Node) string {
